@@ -48,7 +48,8 @@ def ops_for(name):
     fan, ws, inner = SPECS[name]
     ops = []
     for w in ws:
-        ops += [("parse", w), ("forest", w), ("abandon1", w), ("ctrlflow", w), ("prefix", w), ("api", w)]
+        ops += [("parse", w), ("forest", w), ("abandon1", w), ("ctrlflow", w), ("prefix", w), ("api", w),
+                ("prefix_first", w), ("prefix_abandon1", w), ("api_prefix_first", w)]
     ops += [("inner_forest", ws[1] if name != "generator" else "cc"), ("inner_parse", ws[1] if name != "generator" else "cc")]
     ops += [("mutate_last", None)]
     if name == "generator":
@@ -78,6 +79,19 @@ def apply(spec, name, op, held):
             trees = list(g.parse_forest(w, mode=ParsingMode.INCOMPLETE))
         elif kind == "api":
             trees = list(spec.parse(w))
+        elif kind == "prefix_first":
+            t = g.parse(w, mode=ParsingMode.INCOMPLETE)
+            trees = [t] if t is not None else []
+        elif kind == "prefix_abandon1":
+            gen = g.parse_forest(w, mode=ParsingMode.INCOMPLETE)
+            t = next(gen, None)
+            gen.close()
+            trees = [t] if t is not None else []
+        elif kind == "api_prefix_first":
+            gen = spec.parse(w, prefix=True)
+            t = next(gen, None)
+            gen.close()
+            trees = [t] if t is not None else []
         elif kind == "inner_forest":
             trees = list(g.parse_forest(w, start=inner))
         elif kind == "inner_parse":
@@ -133,13 +147,17 @@ def cache_canon(spec, held=()):
     held_ids: set = set()
     for t in held:
         _node_ids(t, held_ids)
-    for (word, start, mode, hook), forest in spec.grammar._parser._cache.items():
+    for key, forest in spec.grammar._parser._cache.items():
         ids: set = set()
         for t in forest:
             _node_ids(t, ids)
-        items.append((repr(word), start.name(), mode.name, hook is None, len(forest), tuple(sorted(repr(snap(t)) for t in forest)),
-                      bool(ids & held_ids)))
-    return tuple(sorted(items))
+        kparts = tuple(repr(k.name() if hasattr(k, "name") and callable(k.name) else k) for k in (key if isinstance(key, tuple) else (key,)))
+        items.append((kparts, len(forest), tuple(sorted(repr(snap(t)) for t in forest)), bool(ids & held_ids)))
+    # residual state of the shared incremental parser that survives a request (an abandoned
+    # iteration leaves it behind): part of the state, otherwise histories with different futures merge
+    ip = spec.grammar._parser._iter_parser
+    residual = (tuple(sorted(repr(snap(t)) for t in getattr(ip, "_incomplete", ()))), len(getattr(ip, "_tmp_rules", {})))
+    return (tuple(sorted(items)), residual)
 
 
 def step(task):
